@@ -915,6 +915,109 @@ def undo_get_none_tests(tree, ref, ref_locals):
     return total
 
 
+def undo_bool_indexing(tree, ref):
+    """`(a, b)[bool(c)]` / `(a, b)[c == d]` - a two-element display indexed by a truth value (False -> 0, True -> 1) - is `b if c else a`;
+    the elements must be plain (names, literals, dotted constants) since the display evaluates both."""
+    total = [0]
+    known = set(ref.get('consts', [])) | set(ref.get('attr_names', []))
+    pairs = {}
+    for holder in [tree] + [c for c in ast.walk(tree) if isinstance(c, ast.ClassDef)]:
+        for st in holder.body:
+            if isinstance(st, ast.Assign) and len(st.targets) == 1 and isinstance(st.targets[0], ast.Name) and isinstance(st.value, (ast.Tuple, ast.List)) and \
+                    len(st.value.elts) == 2 and st.targets[0].id not in known and \
+                    all(isinstance(x, (ast.Name, ast.Constant, ast.Attribute, ast.Load)) for e in st.value.elts for x in ast.walk(e)):
+                pairs[st.targets[0].id] = None if st.targets[0].id in pairs else st.value       # two definitions of one name: ambiguous
+
+    class T(ast.NodeTransformer):
+        def visit_Subscript(self, n):
+            self.generic_visit(n)
+            base = n.value
+            nm = base.id if isinstance(base, ast.Name) else base.attr if isinstance(base, ast.Attribute) and isinstance(base.value, ast.Name) else None
+            if nm is not None and pairs.get(nm) is not None and isinstance(n.ctx, ast.Load):
+                n = ast.copy_location(ast.Subscript(value=copy.deepcopy(pairs[nm]), slice=n.slice, ctx=ast.Load()), n)     # a new two-element constant table
+            if isinstance(n.ctx, ast.Load) and isinstance(n.value, (ast.Tuple, ast.List)) and len(n.value.elts) == 2 and \
+                    all(isinstance(x, (ast.Name, ast.Constant, ast.Attribute, ast.Load)) for e in n.value.elts for x in ast.walk(e)):
+                sl = n.slice
+                test = None
+                if isinstance(sl, ast.Call) and isinstance(sl.func, ast.Name) and sl.func.id == 'bool' and len(sl.args) == 1 and not sl.keywords:
+                    test = sl.args[0]
+                elif isinstance(sl, ast.Compare) or (isinstance(sl, ast.UnaryOp) and isinstance(sl.op, ast.Not)):
+                    test = sl
+                if test is not None:
+                    total[0] += 1
+                    return ast.copy_location(ast.IfExp(test=test, body=n.value.elts[1], orelse=n.value.elts[0]), n)
+            return n
+    for i, st in enumerate(tree.body):
+        tree.body[i] = T().visit(st)
+    if total[0]:
+        ast.fix_missing_locations(tree)
+    return total[0]
+
+
+def undo_iteration_tools(tree, ref):
+    """Two idioms written out again where the reference function has a plain loop:
+    `return next((e for v in IT if c), D)`  ->  `for v in IT: if c: return e` + `return D`;
+    `for i, x in enumerate(islice(X, S, None), S): B`  ->  `for i in range(S, len(X)): x = X[i]; B`  (X a name / attribute chain the body
+    does not re-bind or resize; S a plain name or literal)."""
+    total = 0
+    known_l = ref.get('loops', {})
+    for q, fn in functions(tree):
+        n_for = len([n for n in _own_walk(fn) if isinstance(n, ast.For)])
+        if len(known_l.get(q, [])) <= n_for and not any(isinstance(n, ast.Call) and _txt(n.func) in ('islice', 'itertools.islice') for n in ast.walk(fn)):
+            continue
+        for block in _blocks(fn):
+            for i, st in enumerate(block):
+                if isinstance(st, ast.Return) and isinstance(st.value, ast.Call) and _txt(st.value.func) == 'next' and len(st.value.args) == 2 and not st.value.keywords and \
+                        isinstance(st.value.args[0], ast.GeneratorExp) and len(st.value.args[0].generators) == 1 and len(known_l.get(q, [])) > n_for and \
+                        isinstance(st.value.args[1], (ast.Constant, ast.Name)):
+                    ge = st.value.args[0]
+                    g = ge.generators[0]
+                    inner = [ast.copy_location(ast.Return(value=ge.elt), st)]
+                    for c in reversed(g.ifs):
+                        inner = [ast.copy_location(ast.If(test=c, body=inner, orelse=[]), st)]
+                    for n in ast.walk(g.target):
+                        if isinstance(n, ast.Name):
+                            n.ctx = ast.Store()
+                    loop = ast.copy_location(ast.For(target=g.target, iter=g.iter, body=inner, orelse=[], lineno=st.lineno), st)
+                    block[i:i + 1] = [loop, ast.copy_location(ast.Return(value=st.value.args[1]), st)]
+                    total += 1
+                    break
+                if isinstance(st, ast.For) and not st.orelse and isinstance(st.target, ast.Tuple) and len(st.target.elts) == 2 and all(isinstance(e, ast.Name) for e in st.target.elts) and \
+                        isinstance(st.iter, ast.Call) and _txt(st.iter.func) == 'enumerate' and len(st.iter.args) == 2 and not st.iter.keywords:
+                    src, start = st.iter.args
+                    # the islice may be bound to a local just before the loop
+                    if isinstance(src, ast.Name) and i >= 1 and isinstance(block[i - 1], ast.Assign) and len(block[i - 1].targets) == 1 and isinstance(block[i - 1].targets[0], ast.Name) and \
+                            block[i - 1].targets[0].id == src.id and len([n for n in ast.walk(fn) if isinstance(n, ast.Name) and n.id == src.id]) == 2:
+                        src = block[i - 1].value
+                        drop_prev = True
+                    else:
+                        drop_prev = False
+                    if isinstance(src, ast.Call) and _txt(src.func) in ('islice', 'itertools.islice') and len(src.args) == 3 and isinstance(src.args[2], ast.Constant) and src.args[2].value is None and \
+                            _txt(src.args[1]) == _txt(start) and isinstance(start, (ast.Name, ast.Constant)) and \
+                            all(isinstance(n, (ast.Name, ast.Attribute, ast.Load)) for n in ast.walk(src.args[0])):
+                        X = src.args[0]
+                        iv, xv = st.target.elts[0].id, st.target.elts[1].id
+                        xt = _txt(X)
+                        touched = any((isinstance(n, (ast.Attribute, ast.Name)) and isinstance(getattr(n, 'ctx', None), (ast.Store, ast.Del)) and _txt(n) == xt) or
+                                      (isinstance(n, ast.Call) and isinstance(n.func, ast.Attribute) and _txt(n.func.value) == xt and
+                                       n.func.attr in ('append', 'extend', 'insert', 'pop', 'remove', 'clear', 'sort', 'reverse')) for x in st.body for n in ast.walk(x))
+                        if touched:
+                            continue
+                        bind = ast.copy_location(ast.Assign(targets=[ast.Name(id=xv, ctx=ast.Store())],
+                                                            value=ast.Subscript(value=copy.deepcopy(X), slice=ast.Name(id=iv, ctx=ast.Load()), ctx=ast.Load()), lineno=st.lineno), st)
+                        st.target = ast.copy_location(ast.Name(id=iv, ctx=ast.Store()), st.target)
+                        st.iter = ast.copy_location(ast.Call(func=ast.Name(id='range', ctx=ast.Load()),
+                                                             args=[start, ast.Call(func=ast.Name(id='len', ctx=ast.Load()), args=[copy.deepcopy(X)], keywords=[])], keywords=[]), st.iter)
+                        st.body = [bind] + st.body
+                        if drop_prev:
+                            del block[i - 1]
+                        total += 1
+                        break
+    if total:
+        ast.fix_missing_locations(tree)
+    return total
+
+
 def lower_match(tree, ref):
     """`match subject: case P: ...` with value, literal, class (`T()`), or-patterns and `_`  ->  the if / elif / else chain it stands
     for (`subject == V`, `isinstance(subject, T)`); a subject that is not a plain name or attribute chain is bound to a local first."""
@@ -3659,7 +3762,9 @@ def _class_unstable(tree, fn):
                 via_self = isinstance(n.value, ast.Name) and n.value.id in ('self', 'cls')
                 if via_self and in_owner and f2.name != '__init__':
                     out.add(n.attr)
-                elif not via_self:
+                elif not via_self and in_owner:
+                    out.add(n.attr)                  # the class writing the attribute of another object of its kind
+                elif not via_self and any(x is n for x in ast.walk(fn)):
                     out.add(n.attr)
     return out
 
@@ -4296,9 +4401,9 @@ def normalise(tree, path, ref_locals, model=None):
     for name, fn in (('moved', lambda: pull_back_moved(tree, ref, path, model) + drop_moved_away(tree, ref, path, model)), ('match', lambda: lower_match(tree, ref)), ('eafp', lambda: undo_eafp_probes(tree, ref)), ('getnone', lambda: undo_get_none_tests(tree, ref, ref_locals)), ('enums', lambda: dissolve_enums(tree, ref)), ('namedtuples', lambda: dissolve_namedtuples(tree, ref, path, model)), ('regroup', lambda: regroup_indexed_reads(tree, ref, ref_locals)), ('dataclasses', lambda: undo_dataclasses(tree, ref)), ('dispatch', lambda: undo_dispatch_tables(tree, ref)),
                      ('annotations', lambda: strip_annotations(tree, ref)), ('imports', lambda: normalise_imports(tree, ref)), ('attributes', lambda: rename_attributes(tree, ref)),
                      ('methods', lambda: rename_methods(tree, ref)), ('formats', lambda: restyle_formats(tree, ref)), ('closures', lambda: restore_closures(tree, ref) + restore_closures_from_objects(tree, ref)), ('self', lambda: restore_self(tree, ref)), ('tuples', lambda: split_tuple_bindings(tree, ref)), ('suppress', lambda: expand_suppress(tree, ref)), ('constants', lambda: _constants(tree, ref)),
-                     ('observability', lambda: drop_observability(tree, ref)), ('params', lambda: default_new_params(tree, ref) + default_new_params(tree, ref)), ('initliterals', lambda: inline_init_literals(tree, ref)),
+                     ('boolindex', lambda: undo_bool_indexing(tree, ref)), ('observability', lambda: drop_observability(tree, ref)), ('params', lambda: default_new_params(tree, ref) + default_new_params(tree, ref)), ('initliterals', lambda: inline_init_literals(tree, ref)),
                      ('structs', lambda: inline_struct_objects(tree, ref)),
-                     ('anytests', lambda: lower_any_tests(tree, ref)), ('loops', lambda: reshape_loops(tree, ref, ref_locals)), ('helpers', lambda: inline_helpers(tree, ref)), ('namedtuples2', lambda: dissolve_namedtuples(tree, ref, path, model)), ('records', lambda: scalarise_records(tree, ref)), ('tuplevars', lambda: scalarise_tuple_locals(tree, ref, ref_locals)), ('elsedefaults', lambda: hoist_else_defaults(tree, ref)), ('ifexps0', lambda: expand_ifexps(tree, ref)), ('flagtails', lambda: sink_flag_tails(tree, ref, ref_locals)), ('decided', lambda: fold_decided_branches(tree, ref)), ('trivia', lambda: drop_trivia(tree, ref)), ('ifexps', lambda: expand_ifexps(tree, ref)), ('boolreturns', lambda: expand_bool_returns(tree, ref)),
+                     ('anytests', lambda: lower_any_tests(tree, ref)), ('itertools', lambda: undo_iteration_tools(tree, ref) + undo_iteration_tools(tree, ref)), ('loops', lambda: reshape_loops(tree, ref, ref_locals)), ('helpers', lambda: inline_helpers(tree, ref)), ('namedtuples2', lambda: dissolve_namedtuples(tree, ref, path, model)), ('records', lambda: scalarise_records(tree, ref)), ('tuplevars', lambda: scalarise_tuple_locals(tree, ref, ref_locals)), ('elsedefaults', lambda: hoist_else_defaults(tree, ref)), ('ifexps0', lambda: expand_ifexps(tree, ref)), ('flagtails', lambda: sink_flag_tails(tree, ref, ref_locals)), ('decided', lambda: fold_decided_branches(tree, ref)), ('trivia', lambda: drop_trivia(tree, ref)), ('ifexps', lambda: expand_ifexps(tree, ref)), ('boolreturns', lambda: expand_bool_returns(tree, ref)),
                      ('unrolled', lambda: unroll_loops(tree, ref)), ('builtlists', lambda: scalarise_built_lists(tree, ref, ref_locals)),
                      ('comprehensions', lambda: expand_comprehensions(tree, ref) + collapse_append_loops(tree, ref)), ('ifexps2', lambda: expand_ifexps(tree, ref)),
                      ('ranges', lambda: split_live_ranges(tree, ref_locals or {})), ('temps', lambda: inline_temps(tree, path, ref_locals or {})),
